@@ -5,3 +5,8 @@ namespace MidnightZK.C18.Driver
 def answer (_line : String) : String := "unimplemented"
 
 end MidnightZK.C18.Driver
+
+/-- `mzk-c18 < ops.txt > model.txt` : one answer line per request line. -/
+def main : IO UInt32 := do
+  MidnightZK.lineLoop (← IO.getStdin) (← IO.getStdout) MidnightZK.C18.Driver.answer
+  return 0
